@@ -101,6 +101,27 @@ def operations_matrix():
     return out
 
 
+def decode_multipart(content_type, payload):
+    """Field name -> text value, read with the boundary the Content-Type header announces (RFC 7578)."""
+    match = re.search(r'boundary="?([^";]+)"?', content_type)
+    if not match:
+        raise ValueError(f"no boundary in {content_type!r}")
+    delimiter = b"--" + match.group(1).encode("latin-1")
+    out = {}
+    sections = payload.split(delimiter)
+    if len(sections) < 2 or not sections[-1].lstrip().startswith(b"--"):
+        raise ValueError("closing delimiter missing")
+    for section in sections[1:-1]:
+        section = section[2:] if section.startswith(b"\r\n") else section
+        head, _, value = section.partition(b"\r\n\r\n")
+        value = value[:-2] if value.endswith(b"\r\n") else value
+        name = re.search(rb'name="((?:[^"\\]|\\.)*)"', head)
+        if not name:
+            raise ValueError(f"part without a name: {head[:60]!r}")
+        out[name.group(1).decode("utf-8")] = value.decode("utf-8")
+    return out
+
+
 def make_doc(version, param, body_kind, base_path):
     template = "/op/{v}/end" if param["in"] == "path" else "/op"
     op = {"parameters": [param], "responses": {"200": {"description": "ok"}}}
@@ -114,11 +135,14 @@ def make_doc(version, param, body_kind, base_path):
         elif body_kind == "form":
             body_schema = {"type": "object", "properties": {"a": HOSTILE_STRING, "b": INT_ITEM}, "required": ["a", "b"], "additionalProperties": False}
             media = "application/x-www-form-urlencoded"
+        elif body_kind == "multipart":
+            body_schema = {"type": "object", "properties": {"a": HOSTILE_STRING, "b": INT_ITEM}, "required": ["a", "b"], "additionalProperties": False}
+            media = "multipart/form-data"
         else:
             body_schema = {"type": "string", "maxLength": 20}
             media = "text/plain"
         if version == "2.0":
-            if body_kind == "form":
+            if body_kind in ("form", "multipart"):
                 op["parameters"] = [param] + [{"name": "a", "in": "formData", "required": True, "type": "string", "maxLength": 12}, {"name": "b", "in": "formData", "required": True, "type": "integer", "minimum": 0, "maximum": 999}]
             else:
                 op["parameters"] = [param, {"name": "payload", "in": "body", "required": True, "schema": body_schema}]
@@ -356,7 +380,7 @@ def run_shard(spec, emit):
     session = requests.Session()
     with RecordingServer(Script()) as server:
         for key, version, param, kind in jobs:
-            for body_kind in (None, rng.choice(["json", "form", "text"])):
+            for body_kind in (None, rng.choice(["json", "form", "text", "multipart"])):
                 if time.monotonic() > deadline:
                     emit.count("jobs_skipped_budget")
                     continue
@@ -506,6 +530,10 @@ def judge(param, kind, key, template, base_path, raw, case, record, body_kind, N
                 decoded = dict(parse_qsl(sent.decode("utf-8"), keep_blank_values=True))
                 if isinstance(raw_body[1], dict) and not coerce_equal(raw_body[1], decoded):
                     viols.append(("C06/form-body-does-not-round-trip", f"{sent[:100]!r} vs generated {raw_body[1]!r:.100}"))
+            elif body_kind == "multipart":
+                decoded = decode_multipart(content_type, sent)
+                if isinstance(raw_body[1], dict) and not coerce_equal(raw_body[1], decoded):
+                    viols.append(("C06/multipart-body-does-not-round-trip", f"{sent[:120]!r} vs generated {raw_body[1]!r:.100}"))
             else:
                 if isinstance(raw_body[1], str) and sent.decode("utf-8") != raw_body[1]:
                     viols.append(("C06/text-body-does-not-round-trip", f"{sent[:100]!r} vs generated {raw_body[1]!r:.100}"))
@@ -529,7 +557,8 @@ def wsgi_part(rng, emit, capture, tier):
 
     matrix = [m for m in operations_matrix() if m[1] == "3.0"]
     for key, version, param, kind in rng.sample(matrix, 8 if tier == "quick" else 40):
-        doc, template, method = make_doc(version, param, "json", "")
+        body_kind = rng.choice(["json", "form", "multipart", "text"])
+        doc, template, method = make_doc(version, param, body_kind, "")
         app = WsgiCapture()
         try:
             schema = schemathesis.openapi.from_dict(doc).configure(app=app, location="/openapi.json")
@@ -570,8 +599,9 @@ def wsgi_part(rng, emit, capture, tier):
                 continue  # PATH_INFO is already decoded by the WSGI server: the raw segment is not observable
             emit.count("wsgi_requests_compared")
             context = {"operation": key, "transport": "wsgi", "raw": {k: v[1] for k, v in raw.items()}, "wire": record}
-            viols = judge(param, kind, key, template, "", raw, case, record, "json", NOT_SET)
-            emit.case(sig=f"wsgi|{key}|{record['raw_path']}")
+            viols = judge(param, kind, key, template, "", raw, case, record, body_kind, NOT_SET)
+            emit.count(f"wsgi_body:{body_kind}")
+            emit.case(sig=f"wsgi|{key}|{body_kind}|{record['raw_path']}")
             for k, what in viols:
                 if "unexpected-header" in k:
                     continue
